@@ -204,6 +204,24 @@ func hashKinds() []kind {
 			st.Reset()
 			st.Write(msg[:n/2])
 			o.Out("after-reset", readChunked(r, func(b []byte) { st.Read(b) }, 32, 32))
+			// a message abandoned half way (no Read) and the state re-used for
+			// another one, twice; and a clone taken in the middle that goes on
+			// with other data than the original
+			ab := k12.NewDraft10(c)
+			ab.Write(msg[:n/2])
+			ab.Reset()
+			ab.Write(msg)
+			ab.Reset()
+			ab.Write(msg[n/3:])
+			o.Out("abandoned-then-reused", readChunked(r, func(b []byte) { ab.Read(b) }, 32, 32))
+			dv := k12.NewDraft10(c)
+			dv.Write(msg[:n/2])
+			dc := dv.Clone()
+			tail := msgBytes(r, lib.Pick(r, 1, C-1, C+1, 3*C+5))
+			dv.Write(msg[n/2:])
+			dc.Write(tail)
+			o.Out("diverged-original", readChunked(r, func(b []byte) { dv.Read(b) }, 32, 32))
+			o.Out("diverged-clone", readChunked(r, func(b []byte) { dc.Read(b) }, 32, 32))
 		}},
 		{"keccakf1600.x4", 40, 4000, func(r *lib.Rng, k int, o *rec) {
 			var s keccakf1600.StateX4
